@@ -425,7 +425,8 @@ func init() {
 
 func ExecReader(data any, selector string) (any, error) {
 	mut.Lock()
-	if _, ok := cache[selector]; !ok {
+	parsed, ok := cache[selector]
+	if !ok {
 		allSelectors := make([][]any, 0)
 		selectors := strings.Split(selector, "::")
 		for _, item := range selectors {
@@ -437,10 +438,12 @@ func ExecReader(data any, selector string) (any, error) {
 			allSelectors = append(allSelectors, selectors)
 		}
 		cache[selector] = allSelectors
+		parsed = allSelectors
 	}
 	mut.Unlock()
+	// the cache itself is only touched under the lock
 	result := data
-	for _, item := range cache[selector] {
+	for _, item := range parsed {
 		rs, err := ReaderExecutor(result, item)
 		if err != nil {
 			return nil, err
